@@ -2,7 +2,7 @@
    Designs (Model.clone_mode): Owned = the current code (i2t owns a copy of every term); Rebuilt = i2t borrows
    from the keys, Clone rebuilds it; Derived = i2t borrows, derived Clone.  The theorems hold for every design
    but Derived; the two defects found in the borrowing designs are kept as refuted witnesses. *)
-From Sophia.C10 Require Import Model Proofs Query QueryProofs.
+From Sophia.C10 Require Import Model Proofs Query QueryProofs Observe ObserveProofs.
 
 (* every reachable world is well-formed: stores own pairwise disjoint, never-freed allocations (the text of
    their keys AND of the entries of i2t that own theirs), each i2t is aligned with the store's own keys *)
@@ -108,6 +108,44 @@ Check (q_original_independent : forall w src dst s ops p, src <> dst -> qfind w 
   forallb (fun o => negb (qtouches o src)) ops = true ->
   exists c, qfind (fst (qrun_from (fst (qstep w (QClone src dst))) ops)) src = Some c /\ q_query c p = q_query s p).
 
+(* ---- the other observation methods (Observe.v, round 7): subjects / predicates / objects / graph_names / iris /
+   blank_nodes / literals / quoted_triples / variables / contains ---- *)
+(* what they yield *)
+Check (subjects_spec : forall sg st t, In t (observe sg st ASubjects) <-> exists q, In q (stmts st) /\ qs q = t).
+Check (predicates_spec : forall sg st t, In t (observe sg st APredicates) <-> exists q, In q (stmts st) /\ qp q = t).
+Check (objects_spec : forall sg st t, In t (observe sg st AObjects) <-> exists q, In q (stmts st) /\ qo q = t).
+Check (graph_names_spec : forall sg st g,
+  In g (observe sg st AGraphNames) <-> g <> 0 /\ exists q, In q (stmts st) /\ qg q = g).
+Check (iris_spec : forall sg st t,
+  In t (observe sg st AIris) <->
+  is_iri sg t = true /\ exists q x, In q (stmts st) /\ In x (spog q) /\ In t (atoms depth_fuel sg x)).
+Check (quoted_triples_spec : forall sg st t,
+  In t (observe sg st AQuoted) <->
+  is_quoted sg t = true /\ exists q x, In q (stmts st) /\ In x (spog q) /\ In t (constituents depth_fuel sg x)).
+Check (contains_spec : forall st q, Qwf st ->
+  q_contains st q = existsb (pat_matches (q_design st) (mkPat true true true true q)) (stmts st)).
+(* they depend on the statements of the store and on nothing else (no value kept from an earlier call) *)
+Check (observe_stmts_only : forall sg a b x, stmts a = stmts b -> observe sg a x = observe sg b x).
+(* an observation changes nothing; an operation on another store changes nothing of this one *)
+Check (a_obs_pure : forall sg w sid a, fst (astep sg w (AObs sid a)) = w).
+Check (a_has_pure : forall sg w sid q, fst (astep sg w (AHas sid q)) = w).
+Check (a_frame : forall sg w o sid, atouches o sid = false -> qfind (fst (astep sg w o)) sid = qfind w sid).
+Check (a_reachable_qwf : forall sg ops sid s, qfind (fst (arun sg ops)) sid = Some s -> Qwf s).
+(* a clone and its original answer every accessor and every `contains` as the original did at the time of cloning,
+   whatever is done afterwards to the other one (mutations that change its graph names, subjects, ...; drops; moves;
+   queries and observations of any kind on either side, before or after, in any order) *)
+Check (a_clone_spec : forall sg w src dst s, src <> dst -> qfind w src = Some s -> qfind w dst = None ->
+  let w' := fst (astep sg w (AQ (QClone src dst))) in
+  qfind w' dst = Some s /\ qfind w' src = Some s).
+Check (a_clone_independent : forall sg w src dst s ops, src <> dst -> qfind w src = Some s -> qfind w dst = None ->
+  forallb (fun o => negb (atouches o dst)) ops = true ->
+  exists c, qfind (fst (arun_from sg (fst (astep sg w (AQ (QClone src dst)))) ops)) dst = Some c
+            /\ (forall a, observe sg c a = observe sg s a) /\ (forall q, q_contains c q = q_contains s q)).
+Check (a_original_independent : forall sg w src dst s ops, src <> dst -> qfind w src = Some s -> qfind w dst = None ->
+  forallb (fun o => negb (atouches o src)) ops = true ->
+  exists c, qfind (fst (arun_from sg (fst (astep sg w (AQ (QClone src dst)))) ops)) src = Some c
+            /\ (forall a, observe sg c a = observe sg s a) /\ (forall q, q_contains c q = q_contains s q)).
+
 Print Assumptions reachable_wf.
 Print Assumptions step_wf.
 Print Assumptions reachable_read_safe.
@@ -143,3 +181,20 @@ Print Assumptions q_clone_independent.
 Print Assumptions q_original_independent.
 Print Assumptions clone_mutate_query_example.
 Print Assumptions dataset_query_example.
+Print Assumptions subjects_spec.
+Print Assumptions predicates_spec.
+Print Assumptions objects_spec.
+Print Assumptions graph_names_spec.
+Print Assumptions iris_spec.
+Print Assumptions quoted_triples_spec.
+Print Assumptions contains_spec.
+Print Assumptions observe_stmts_only.
+Print Assumptions a_obs_pure.
+Print Assumptions a_has_pure.
+Print Assumptions a_frame.
+Print Assumptions a_reachable_qwf.
+Print Assumptions a_clone_spec.
+Print Assumptions a_clone_independent.
+Print Assumptions a_original_independent.
+Print Assumptions graph_names_clone_example.
+Print Assumptions graph_has_no_graph_names.
